@@ -100,6 +100,8 @@ type interpreter struct {
 	depth int
 	top   *frame
 	pool  map[*value][]value
+
+	ulidCounter int
 }
 
 type deferred struct {
@@ -275,6 +277,11 @@ func visitInstr(fr *frame, instr ssa.Instruction) continuation {
 			taken = c
 		case symBool:
 			i.top = fr
+			// unwinding bound: symbolic decisions at one branch site of one frame
+			fr.visits[fr.block.Index]++
+			if fr.visits[fr.block.Index] > i.w.Cfg.Unwind {
+				panic(stop{kind: "unwind", id: "loop", msg: fmt.Sprintf("unwinding bound %d exceeded in %s block %d", i.w.Cfg.Unwind, fr.fn, fr.block.Index)})
+			}
 			taken = i.branch(c.t)
 		default:
 			panic(fmt.Sprintf("If: condition of type %T", c))
@@ -540,6 +547,11 @@ func callSSA(i *interpreter, caller *frame, callpos token.Pos, fn *ssa.Function,
 			fn = stubFn
 			fr.fn = fn
 		} else if ext := intrinsics[name]; ext != nil {
+			if nf, ok := nativeFirst[name]; ok && allConcrete(args) {
+				if r, ok := i.callNative(fr, fn, name, nf, args); ok {
+					return r
+				}
+			}
 			return ext(fr, args)
 		} else if ext := externals[name]; ext != nil {
 			return ext(fr, args)
@@ -639,10 +651,6 @@ func runFrame(fr *frame) {
 			fmt.Fprintf(os.Stderr, ".%s:\n", fr.block)
 		}
 
-		fr.visits[fr.block.Index]++
-		if fr.visits[fr.block.Index] > fr.i.w.Cfg.Unwind {
-			panic(stop{kind: "unwind", id: "loop", msg: fmt.Sprintf("loop bound %d exceeded in %s block %d", fr.i.w.Cfg.Unwind, fr.fn, fr.block.Index)})
-		}
 		nonPhis := executePhis(fr)
 		for _, instr := range nonPhis {
 			fr.i.run.steps++
